@@ -94,9 +94,34 @@ func (w *c09World) opDeposit() {
 		amt = math.ZeroInt()
 	}
 	msg := opchildtypes.NewMsgFinalizeTokenDeposit(mon.Pick(w.rng, e.Executors).String(), "l1sender", to, sdk.NewCoin(l2d, amt), w.nextL1, 1, base, nil)
-	res := e.L2.Deliver(msg)
+	// sometimes the deposit carries a hook signed by the recipient: a withdrawal of 1 unit, optionally followed by a
+	// transfer that cannot be paid (then the whole hook, including the withdrawal, must leave nothing behind)
+	hook := ""
+	if !bad && amt.GT(math.NewInt(5)) && w.rng.Chance(25) {
+		for _, u := range e.Users {
+			if u.String() == to {
+				if n, sq, ok := e.L2.AccNumSeq(u.Addr); ok {
+					msgs := []sdk.Msg{opchildtypes.NewMsgInitiateTokenWithdrawal(u.String(), "l1hookrecipient", sdk.NewCoin(l2d, math.NewInt(1)))}
+					hook = "withdraw"
+					if w.rng.Bool() {
+						msgs = append(msgs, banktypes.NewMsgSend(u.Addr, e.Users[0].Addr, sdk.NewCoins(sdk.NewCoin(l2d, math.NewInt(1<<62)))))
+						hook = "withdraw-then-fail"
+					}
+					bz, err := e.L2.SignTx(u, n, sq, sim.L2ChainID, 400_000, msgs...)
+					if err != nil {
+						panic(err)
+					}
+					msg.Data = bz
+				}
+			}
+		}
+		if msg.Data == nil {
+			hook = ""
+		}
+	}
+	res := e.L2.DeliverGas(100_000_000, msg)
 	w.run.Evaluations++
-	w.log = append(w.log, fmt.Sprintf("deposit seq=%d to=%s %s%s base=%s -> %s %s", w.nextL1, short(to), amt, short(l2d), base, res.Class, res.ErrString()))
+	w.log = append(w.log, fmt.Sprintf("deposit seq=%d to=%s %s%s base=%s hook=%q -> %s %s", w.nextL1, short(to), amt, short(l2d), base, hook, res.Class, res.ErrString()))
 	if res.Class != sim.OK {
 		w.run.Check("C09.deposit_processed", false, "c09.deposit_failed", w.tr(), "in-order deposit failed: %s", res.ErrString())
 		return
@@ -109,11 +134,24 @@ func (w *c09World) opDeposit() {
 	if conflicting {
 		w.feat["conflicting_base"]++
 	}
+	succ := "true"
+	for _, ev := range res.EventsOfType(opchildtypes.EventTypeFinalizeTokenDeposit) {
+		succ, _ = sim.Attr(ev, opchildtypes.AttributeKeySuccess)
+	}
 	evs := res.EventsOfType(opchildtypes.EventTypeInitiateTokenWithdrawal)
-	if len(evs) > 0 { // refund
+	switch {
+	case succ == "false": // refunded: exactly one withdrawal, the refund of the full amount
+		w.run.Check("C09.exactly_one_event", len(evs) == 1, "c09.refund_event_count", w.tr(), "a refunded deposit (hook %q) announced %d withdrawals, expected exactly the refund", hook, len(evs))
 		w.add(l2d, new(big.Int).Neg(amt.BigInt()))
 		w.withdrawEvents(res, to, "l1sender", l2d, amt)
 		w.feat["refund"]++
+	case hook == "withdraw": // credited, and the hook withdrew one unit
+		w.run.Check("C09.exactly_one_event", len(evs) == 1, "c09.hook_withdrawal_event_count", w.tr(), "a credited deposit whose hook withdraws once announced %d withdrawals", len(evs))
+		w.add(l2d, big.NewInt(-1))
+		w.withdrawEvents(res, to, "l1hookrecipient", l2d, math.NewInt(1))
+		w.feat["hook_withdrawal"]++
+	default:
+		w.run.Check("C09.exactly_one_event", len(evs) == 0, "c09.credit_event_count", w.tr(), "a credited deposit announced %d withdrawals", len(evs))
 	}
 	w.invariants()
 }
@@ -201,6 +239,25 @@ func (w *c09World) opWithdraw() {
 	w.invariants()
 }
 
+// opDiscarded: things that happen on a branch which is then thrown away (a failed transaction, a simulation,
+// CheckTx): a deposit that names another base denom or "bridges" a native token, and a refund or withdrawal there.
+// Nothing of it may be visible afterwards.
+func (w *c09World) opDiscarded() {
+	e := w.e
+	br := e.Branch()
+	l1d := mon.Pick(w.rng, []string{"uinit", "uusdc", "ueth", "unever"})
+	denom := e.L2Denom(l1d)
+	if w.rng.Chance(35) {
+		denom = mon.Pick(w.rng, w.natives) // an executor's message "bridging" a native token, never committed
+	}
+	to := mon.Pick(w.rng, []string{"garbage", mon.Pick(w.rng, e.Users).String()})
+	msg := opchildtypes.NewMsgFinalizeTokenDeposit(e.Executors[0].String(), "l1x", to, sdk.NewCoin(denom, math.NewInt(int64(1+w.rng.Intn(1000)))), w.nextL1, 1, "ubogus", nil)
+	r1 := br.L2.Deliver(msg)
+	r2 := br.L2.Deliver(opchildtypes.NewMsgInitiateTokenWithdrawal(mon.Pick(w.rng, e.Users).String(), "l1r", sdk.NewCoin(denom, math.NewInt(1))))
+	w.log = append(w.log, fmt.Sprintf("on a discarded branch: deposit of %s with base ubogus to %s -> %s; withdrawal -> %s", short(denom), short(to), r1.Class, r2.Class))
+	w.invariants()
+}
+
 func (w *c09World) opTransfer() {
 	l2 := w.e.L2
 	from, to := mon.Pick(w.rng, w.e.Users), mon.Pick(w.rng, w.e.Users)
@@ -243,8 +300,10 @@ func checkC09(run *mon.Run, rng *mon.Rand, thorough bool) {
 				w.opDeposit()
 			case x < 75:
 				w.opWithdraw()
-			case x < 95:
+			case x < 88:
 				w.opTransfer()
+			case x < 95:
+				w.opDiscarded()
 			default:
 				e.L2.NextBlock(1e9)
 			}
